@@ -19,41 +19,53 @@ variable {V : Type}
 structure Scan where
   done : Worker → Task → Bool
   stuck : Worker → Task → Bool
+  failedT : Task → Bool          -- the task's function has raised at some point of the history
 
-def Scan.init : Scan := ⟨fun _ _ => false, fun _ _ => false⟩
+def Scan.init : Scan := ⟨fun _ _ => false, fun _ _ => false, fun _ => false⟩
 
 def Scan.flagged (sc : Scan) (w : Worker) (t : Task) : Bool := sc.done w t || sc.stuck w t
 
 def Scan.setDone (sc : Scan) (w : Worker) (t : Task) : Scan :=
   { sc with done := fun w' t' => if w' = w ∧ t' = t then true else sc.done w' t' }
 
-def scanStep (sdeps : Task → List Task) (sc : Scan) : Ev V → Scan
+/-- a worker that will not end its loop normally (stop request; a failure without --keep-going) is exempt from the obligation -/
+def Scan.exempt (sc : Scan) (w : Worker) : Scan :=
+  { sc with done := fun w' t' => if w' = w then true else sc.done w' t' }
+
+/-- `kg w` = worker `w` runs with --keep-going -/
+def scanStep (sdeps : Task → List Task) (kg : Worker → Bool) (sc : Scan) : Ev V → Scan
   | .canLoad w t true => sc.setDone w t
   | .canLoad w d false => { sc with stuck := fun w' t' => if w' = w ∧ (sdeps t').contains d then true else sc.stuck w' t' }
   | .load w t _ => sc.setDone w t
   | .lock w t false => sc.setDone w t
   | .dump w t _ => sc.setDone w t
   | .unlock w _ => { sc with stuck := fun w' t' => if w' = w then false else sc.stuck w' t' }
+  | .markFailed w _ => { sc with stuck := fun w' t' => if w' = w then false else sc.stuck w' t' }
+  -- the function raised: the task is accounted for (as failed); without --keep-going the loop is left by the exception
+  | .endExc w t =>
+      let sc' : Scan := { (sc.setDone w t) with failedT := fun t' => if t' = t then true else sc.failedT t' }
+      if kg w then sc' else sc'.exempt w
   -- a worker that was asked to stop is exempt (it may leave with status 0: task limit, time limit, stop file)
-  | .stop w _ => { sc with done := fun w' t' => if w' = w then true else sc.done w' t' }
+  | .stop w _ => sc.exempt w
   | _ => sc
 
-/-- the obligation: a worker leaves with status 0 only when every task is accounted for -/
+/-- the obligation: a worker leaves (with whatever status) only when every task is accounted for, unless it is exempt -/
 def scanGuard (n : Nat) (sc : Scan) : Ev V → Bool
-  | .exit w 0 => (List.range n).all (fun t => sc.flagged w t)
+  | .exit w _ => (List.range n).all (fun t => sc.flagged w t)
   | _ => true
 
-def scanRun (n : Nat) (sdeps : Task → List Task) : Scan → List (Ev V) → Bool
+def scanRun (n : Nat) (sdeps : Task → List Task) (kg : Worker → Bool) : Scan → List (Ev V) → Bool
   | _, [] => true
-  | sc, e :: es => scanGuard n sc e && scanRun n sdeps (scanStep sdeps sc e) es
+  | sc, e :: es => scanGuard n sc e && scanRun n sdeps kg (scanStep sdeps kg sc e) es
 
 /-- the same obligation on one extracted path of the real worker loop (worker 0, the path's own task list):
-    when `execution_loop` returns without failures every task of the list is accounted for -/
-def lscan (deps : List (List Task)) : Scan × Bool → LEv → Scan × Bool
-  | (sc, ok), .ev e => (scanStep (fun t => deps.getD t []) sc e, ok)
-  | (sc, ok), .ret false => (sc, ok && (List.range deps.length).all (fun t => sc.flagged 0 t))
+    when `execution_loop` returns every task of the list is accounted for (a failed task counts as accounted for) -/
+def lscan (kg : Bool) (deps : List (List Task)) : Scan × Bool → LEv → Scan × Bool
+  | (sc, ok), .ev e => (scanStep (fun t => deps.getD t []) (fun _ => kg) sc e, ok)
+  -- `execution_loop` returns (with or without failures): every task of the list is accounted for
+  | (sc, ok), .ret _ => (sc, ok && (List.range deps.length).all (fun t => sc.flagged 0 t))
   | s, _ => s
 
-def lscanOK (p : WPath) : Bool := (p.events.foldl (lscan p.deps) (Scan.init, true)).2
+def lscanOK (p : WPath) : Bool := (p.events.foldl (lscan p.flags.keepGoing p.deps) (Scan.init, true)).2
 
 end Jug.Exec
